@@ -99,7 +99,11 @@ class C09Engine(Engine):
     level = "exploration"
     chunk = 6
     selftest_m = {"quick": 16, "thorough": 64}
-    sweep_hashseeds = {"quick": [1, 2], "thorough": [1, 2, 3, 5, 8, 13, 21, 34, 55, 89, 144, 233, 377, 610, 987]}
+    sweep_hashseeds = {"quick": [1, 2, 3], "thorough": [1, 2, 3, 5, 8, 13, 21, 34, 55, 89, 144, 233, 377, 610, 987]}
+    # For this property a digest that differs between interpreters IS the violation (restart_sweep part), not a
+    # defect of the simulator, so the runner's generic fresh-interpreter self-test is replaced by the sweep.  (The
+    # same-interpreter second-worker comparison stays a harness error.)
+    owns_fresh_check = True
 
     def prepare(self, tier):
         _setup()
@@ -400,7 +404,7 @@ class C09Engine(Engine):
                 with np.errstate(all="ignore"):
                     g = np.exp(g)
             tol = 1e-11 * max(1, sh["conv"])
-            same = (g.shape == sh["orig"].shape and np.allclose(g, sh["orig"], rtol=tol, atol=0, equal_nan=True)
+            same = (g.shape == sh["orig"].shape and np.allclose(g, sh["orig"], rtol=tol, atol=1e-280, equal_nan=True)
                     and np.array_equal(np.array(pr.timepoints), sh["orig_tp"])
                     and np.array_equal(np.array(pr.nonfixed_nodes), sh["orig_nf"]))
             if not same:
